@@ -713,6 +713,25 @@ def r5_walkers(ctx):
     fl = Flow(rel)
     pf = [bi for bi, t in rel.calls_to("Vec::push") if fl.mentions_field(fl.canon_op(t["args"][0]) or (0, ()), "executor::Executor", "pending_free")]
     ctx.check(bool(pf), R, rel.key + "|pending_free", "release queues a slot whose count reached zero", "release no longer queues zero-count slots for reclamation")
+    # ... unconditionally: from the `count == 0` outcome every path to the function's exit passes pending_free.push
+    fln = Flow(rel, through_named=True)
+    zero_tests = []
+    for bi, si, s in rel.stmts():
+        if s["k"] == "assign" and s["rv"]["k"] == "bin" and s["rv"]["op"] in ("Eq", "Ne") and (s["rv"]["r"].get("val") == 0 or s["rv"]["l"].get("val") == 0):
+            pl = op_place(s["rv"]["l"]) or op_place(s["rv"]["r"])
+            if pl and any(f == "refcounts" for _o, f in fln.slice_reads(pl["l"], through_calls=("Index::index", "IndexMut::index_mut"))[0]):
+                # the test that follows the decrement (dominated by the saturating_sub call)
+                if any(rel.dominates(b2, bi) for b2, _t in rel.calls_to("saturating_sub")):
+                    zero_tests.append((bi, si, s["rv"]["op"]))
+    ok = False
+    if zero_tests and pf:
+        ok = True
+        for bi, si, op in zero_tests:
+            bad = explore(rel, [bi], avoid=pf, want="return", force={(bi, si): (1 if op == "Eq" else 0)})
+            if bad:
+                ok = False
+    ctx.check(ok, R, rel.key + "|queue-when-zero", "whenever the decrement brings a count to zero the slot is queued (no extra condition)",
+              "a count can reach zero without the slot being queued for reclamation: the slot is never reclaimed (heap grows although nothing is reachable)", rel.loc(0))
     ret = F.body(EXEC + "::retain")
     adds = [s for _b, _i, s in ret.stmts() if s["k"] == "assign" and s["rv"]["k"] == "bin" and s["rv"]["op"].startswith("Add") and s["rv"]["r"].get("val") == 1]
     ctx.check(len(adds) == 1, R, ret.key + "|+1", "retain adds exactly 1 per occurrence", "retain increments changed (%d add sites)" % len(adds))
